@@ -38,10 +38,87 @@ def healthy_oracle(case, d):
     return None
 
 
+def write_fault_probe(rng):
+    """the real Server/Connection with subscribers one of whose transports raises from write() (a fault the Coq model does not
+    have: its transports never raise): every OTHER subscriber must get exactly one copy of every message, in order, and stay
+    connected; the publisher must be untouched; only the faulty subscriber may be closed.  -> failure text or None"""
+    import asyncio
+    import broker
+    import hpfeeds.protocol as P
+    from vloop import VLoop
+    from hpfeeds.broker.server import Server
+    from hpfeeds.broker.connection import Connection
+
+    class Faulty(broker.SimTransport):
+        broken = False
+
+        def write(self, d):
+            if self.broken:
+                raise OSError(32, 'Broken pipe')
+            return broker.SimTransport.write(self, d)
+    loop = VLoop()
+    asyncio.set_event_loop(loop)
+    try:
+        table = {'pub': broker.mkrow('pub', (b's', [b'x'], [b'x'])), 'sub': broker.mkrow('sub', (b't', [], [b'x']))}
+        srv = Server(auth=broker.FutStore(table, False, loop), name='hpfeeds')
+        n = rng.randint(2, 6)
+        conns = []
+        for q in range(n + 1):
+            c = Connection(srv)
+            t = Faulty(q)
+            t.now = loop.time
+            loop.call(c.connection_made, t)
+            ident, secret = ('pub', 's') if q == 0 else ('sub', 't')
+            loop.call(c.data_received, P.msgauth(bytes(c.authrand), ident, secret))
+            if q:
+                loop.call(c.data_received, P.msgsubscribe(ident, 'x'))
+            conns.append((c, t))
+        msgs = [bytes([65 + k]) * rng.randint(0, 5) + bytes([k]) for k in range(rng.randint(2, 5))]
+        bad = set(rng.sample(range(1, n + 1), rng.choice([1, 1, 2]) if n > 2 else 1))
+        when = rng.randrange(len(msgs))
+        for k, m in enumerate(msgs):
+            if k == when:
+                for q in bad:
+                    conns[q][1].broken = True
+            try:
+                loop.call(conns[0][0].data_received, P.msgpublish('pub', 'x', m))
+            except Exception as e:  # noqa
+                return 'a write fault of subscriber(s) %s made the PUBLISHER\'s data_received raise %s' % (sorted(bad), type(e).__name__)
+            loop.idle()
+        if conns[0][1].closing:
+            return 'a write fault of subscriber(s) %s got the publisher disconnected' % sorted(bad)
+        for q in range(1, n + 1):
+            c, t = conns[q]
+            got = [b for o, b in broker.split_frames(t.out)[0] if o == P.OP_PUBLISH]
+            want = [P.strpack8('pub') + P.strpack8('x') + m for m in msgs]
+            if q in bad:
+                continue
+            if t.closing:
+                return 'healthy subscriber %d was disconnected after subscriber(s) %s had a write fault' % (q, sorted(bad))
+            if got != want:
+                return ('healthy subscriber %d received %d of %d messages (%s) after a write to subscriber(s) %s raised during message %d'
+                        % (q, len(got), len(want), 'in order' if got == want[:len(got)] else 'not a prefix', sorted(bad), when))
+        return None
+    finally:
+        loop.shutdown()
+        asyncio.set_event_loop(None)
+
+
 def run(ctx, res):
-    res.rule = RULE % ASPECTS
+    res.rule = RULE % ASPECTS + ('; plus a probe of the real broker with subscribers whose transport.write() raises (not in the model): all other '
+                                 'subscribers get every message once, in order, nobody else is disconnected')
+    if ctx.scale == 1:
+        for k in range(ctx.n(25, 300)):
+            p = write_fault_probe(ctx.rng('wf%d' % k))
+            res.evaluations += 1
+            res.count('write_fault_probe')
+            if p:
+                res.failures.append(dict(signature='C10: write fault', what=p, case=dict(probe='write_fault', k=k)))
+                break
     B.run(ctx, res, 'C10', ASPECTS, PLAN, extra_oracle=healthy_oracle)
 
 
 def replay(ctx, case):
+    if case.get('probe') == 'write_fault':
+        return write_fault_probe(ctx.rng('wf%d' % case['k']))
     return B.replay_case('C10', case, healthy_oracle)
